@@ -73,9 +73,10 @@ def scenario(R, N, client_kind, nsend, with_write_error):
             script = {}
             if i == 0:
                 def susp(w):
-                    d = EX().choose(2)
+                    # every drain: returns at once or suspends for a moment; the first one may also stall for 7 s (a gateway that stops reading)
+                    d = EX().choose(3 if not tr["drains"] else 2)
                     tr["drains"].append(d)
-                    return bool(d)
+                    return 7.0 if d == 2 else bool(d)
                 script["drain"] = susp
                 if with_write_error:
                     base = 2 if client_kind == "waveshare" else 1
@@ -233,7 +234,7 @@ def run(tier, seed):
     ns = 2 if tier == "quick" else 3
     rep.functions = ["ioclient.AsyncIOClient.send", "the clients' _encode_impl", "encoder.encode_ebyte / encode_yacht_devices / encode_usb / _encode_fast_message",
                      "ioclient._update_state / connect (after a write error)"]
-    rep.bounds = {"senders": "%d concurrent send() calls" % ns, "message kinds": list(KINDS), "flow control": "every pattern of suspending / non-suspending drain() calls",
+    rep.bounds = {"senders": "%d concurrent send() calls" % ns, "message kinds": list(KINDS), "flow control": "every pattern of suspending / non-suspending drain() calls; the first drain() may stall for 7 s",
                   "write errors": "at the 1st, 2nd or 3rd packet of a 2-frame + 1-frame pair of messages; reported by write() or by the following drain(); as %s" % ", ".join(n_ for n_, _ in WRITE_ERRORS), "clients": list(SENDERS)}
     rep.stubs = ["StreamWriter -> recording stub whose drain() suspension and write failure are chosen by the explorer"]
     rep.outside = ["more than %d concurrent senders" % ns, "messages with more than 2 frames"]
